@@ -1,11 +1,11 @@
 import Model.Ansi
-import Generated.GoCode
+import Generated.GoAnsi
 import Proofs.Gen16
 
 /-
   The tie by translation for C16: the vertical layout functions of ansi/ansi.go (Height, Squash,
   CenterVertically, ReplaceLastLine, SetLength) are translated from the source on every run
-  (`Generated/GoCode.lean`, namespace `GenAnsi`); the theorems below say the generated code
+  (`Generated/GoAnsi.lean`, namespace `GenAnsi`); the theorems below say the generated code
   computes what the hand-written model (`Model/Ansi.lean`) computes, so the C16 theorems hold of the
   code as translated.  Sizes are bounded by 2^62 where Go's fixed-width integers matter (a Go
   string cannot be longer than that; terminal heights are far smaller).
